@@ -51,9 +51,19 @@ CTORS = {
     "fromFiber-owned-root": lambda spec, d: Tensor.fromFiber(
         _ids(d), Tensor.fromFiber(["A", "B", "C"][:d], mktree(spec, d)).getRoot()),
     "setRoot-again": lambda spec, d: _set_root_again(spec, d),
+    "setRoot-slice-of-own-root": lambda spec, d: _set_root_own_slice(spec, d),
     "deepcopy": lambda spec, d: copy.deepcopy(Tensor.fromFiber(_ids(d), mktree(spec, d), shape=[2] * d)),
     "yaml": lambda spec, d: _yaml_rt(Tensor.fromFiber(_ids(d), mktree(spec, d), shape=[2] * d)),
 }
+
+
+def _set_root_own_slice(spec, d):
+    """Re-root a populated tensor with an unowned fiber assembled from its own
+    (already registered) sub-fibers: a slice of its root."""
+    T = Tensor.fromFiber(_ids(d), mktree(spec, d), shape=[2] * d)
+    root = T.getRoot()
+    T.setRoot(root[0:len(root)] if len(root) else Fiber())
+    return T
 
 
 def _set_root_again(spec, d):
